@@ -65,6 +65,11 @@ class Renderer:
     if k == "lit": return str(e[1]) if e[1] >= 0 else f"(-{-e[1]})"
     if k == "cast": return f"{bits_t(e[1])}( {self.ex(e[2])} )"
     if k == "lv": return e[1]
+    if k == "cvar": return e[1]
+    if k == "lsel":
+      r = dict(e[1]); base = r["sig"]
+      pre = "s" + ("." + r["inst"] if r["inst"] else "") + "." + base
+      return f"{pre}[{self.ex(e[3])}]"
     if k == "tmp": return e[1]
     if k == "tmpsl": return f"{e[1]}[{e[2]}:{e[3]}]"
     if k == "bin": return f"({self.ex(e[2])} {e[1]} {self.ex(e[3])})"
@@ -117,10 +122,24 @@ class Renderer:
   def cls(self, cname, c, tag):
     L = [f"class {cname}_{tag}( Component ):", "  def construct( s ):"]
     decl = []
+    for cname_, cval in c.get("consts", []):
+      decl.append(f"    {cname_} = {cval if isinstance(cval, int) else self.ex(cval)}")
+    seen_lists = set()
+
+    def declare(n, ctor):
+      if "[" in n:
+        base = n.split("[", 1)[0]
+        if base in seen_lists: return
+        seen_lists.add(base)
+        cnt = sum(1 for x in names_all if x.split("[", 1)[0] == base and "[" in x)
+        decl.append(f"    s.{base} = [ {ctor} for _ in range({cnt}) ]")
+      else:
+        decl.append(f"    s.{n} = {ctor}")
+    names_all = [n for n, d, t in c["ports"]] + [n for n, t in c["wires"]]
     for n, d, t in c["ports"]:
-      decl.append(f"    s.{n} = {'InPort' if d == 'in' else 'OutPort'}( {self.tname(t)} )")
+      declare(n, f"{'InPort' if d == 'in' else 'OutPort'}( {self.tname(t)} )")
     for n, t in c["wires"]:
-      decl.append(f"    s.{n} = Wire( {self.tname(t)} )")
+      declare(n, f"Wire( {self.tname(t)} )")
     for iname, ccn in c["children"]:
       decl.append(f"    s.{iname} = {ccn}_{tag}()")
     decl.extend("    " + l for l in c.get("raw_decl", []))
@@ -139,6 +158,10 @@ class Renderer:
       else: body.append([f"    connect( {b}, {a} )"])
     blocks = []
     for b in c["blocks"]:
+      if b.get("lambda"):
+        st_ = b["stmts"][0]
+        blocks.append([f"    {self.ref(st_[1])} //= lambda: {self.ex(st_[2])}"])
+        continue
       deco = {"comb": "@update", "ff": "@update_ff", "once": "@update_once"}[b["kind"]]
       lines = [f"    {deco}", f"    def {b['name']}():"] + (self.stmts(b["stmts"], b["kind"], 3) or ["      pass"])
       blocks.append(lines)
